@@ -79,7 +79,18 @@ def _run(prop, tier, replay, seed, work, t0):
             rp = json.load(f)
         cases = [rp["case"]]
         sub = rp.get("sub", "typed")
-        if sub == "codec":
+        if sub == "session":
+            sp, tp = work.path("rp_sched.ndjson"), work.path("rp_trace.ndjson")
+            with open(sp, "w") as f:
+                f.write(json.dumps(rp["case"]["schedule"]) + "\n")
+            C.run([binpath, "session", sp, tp], timeout=300)
+            tuples, _, _, _ = C.tlc_trace("SessionTrace", "SessionTrace.cfg", tp, work, timeout=600)
+            for t in tuples:
+                if t[0] == "VIOL":
+                    for p, msg, sig in t[3]:
+                        if p == prop:
+                            verdict.add(prop, msg, "", {"id": t[1]})
+        elif sub == "codec":
             nrec += _validate(binpath, "codec", "CodecTrace", "CodecTrace.cfg", cases, work, TAGS[prop], verdict, prop)
         else:
             b = binpath
@@ -105,6 +116,37 @@ def _run(prop, tier, replay, seed, work, t0):
             all_cases[("framing", c["id"])] = c
         nrec += _validate(binpath, "codec", "CodecTrace", "CodecTrace.cfg", lc, work, TAGS[prop], verdict, prop, label="framing")
         parts["framing_cases"] = len(lc)
+
+    if prop == "C13":
+        # pairing through the real Client::command_list and the loop: typed tuples / vectors whose commands have distinguishable
+        # replies (functions of their argument), concurrent callers and notifications; judged by SessionTrace (World.tla: TypedItem)
+        import sched as S
+        scs = S.generate("tlists", 250 if quick else 6000, seed)
+        nsh = 1 if quick else 8
+        straces = []
+        for k in range(nsh):
+            sp, tp = work.path(f"tl_sched{k}.ndjson"), work.path(f"tl_trace{k}.ndjson")
+            with open(sp, "w") as f:
+                for sc in scs[k::nsh]:
+                    f.write(json.dumps(sc) + "\n")
+            C.run([binpath, "session", sp, tp], timeout=900)
+            straces.append(tp)
+        ntl = 0
+        for tp, tuples, ns in C.tlc_traces_parallel("SessionTrace", "SessionTrace.cfg", straces, work, jobs=nsh, timeout=2400):
+            nrec += ns - 1
+            ntl += sum(1 for l in open(tp) if '"t":"tl"' in l)
+            for t in tuples:
+                if t[0] != "VIOL":
+                    continue
+                for p, msg, sig in t[3]:
+                    if p == "HARNESS":
+                        verdict.add("HARNESS", msg, "", {"id": -1})
+                    elif p == "C13":
+                        sc = next((x for x in scs if x["run"] == t[1]), None)
+                        all_cases[("session", t[1])] = {"schedule": sc}
+                        verdict.add(prop, msg + " (through Client::command_list)", "", {"id": t[1], "line": t[2], "trace": tp, "label": "session", "sub": "session"})
+        parts["typed_lists_through_client"] = ntl
+        parts["session_runs"] = len(scs)
 
     def write_replay(msg, sig, where):
         c = all_cases.get((where.get("label", ""), where["id"]))
